@@ -8,14 +8,52 @@ import numpy as np
 from harness import common as C
 
 THEOREMS = 'Properties/C02.v'
-CLAIM = dict(text='filled in below', note='', technique='')
+KNOWN_EIGH = 'C02/eigh-mode-sqrt-eps-floor'
+CLAIM = dict(
+    text='Coq theorems (Properties/C02.v), at the reals, for every d, mode sizes and rank profile. '
+         '(1) Rank rule q = max(1, min(int r, len - dlen)) of matrix_svd / matrix_skeleton (C02_rank_select_bounds, _tail, '
+         '_minimal, _monotone): 1 <= q <= max(1, r), q <= len; the discarded energy is <= e^2 when q < r; every smaller rank '
+         'misses the budget; monotone in e and r. '
+         '(2) matrix_skeleton(give_to=l) for every svd routine meeting the thin-SVD contract (C02_matrix_skeleton_contract, '
+         '_residual): U V = A V^T V, V V^T = I, |A - U V|_F^2 = sum of the discarded s^2 (<= e^2 when the cap does not bind), '
+         'rank bounds. '
+         '(3) The right-to-left sweep with the factorisation abstracted by that contract (C02_sweep_error, '
+         'C02_trunc_sweep_is_gsweep): same shape, chain ranks, every new rank between 1 and the old one and <= max(1, r), and '
+         '|Zs - W|_F^2 <= (d-1) delta^2 when no returned rank reaches the cap - the full Pythagoras argument (successive '
+         'differences are orthogonal), not the triangle inequality. '
+         '(2b) matrix_svd (eigen-decomposition mode) meets the same contract (C02_matrix_svd_contract) for every eigh routine '
+         'returning an orthogonal eigen-decomposition of symmetric matrices and every argsort returning a permutation: both '
+         'branches (m <= n and m > n), clipping, sqrt, guarded reciprocal (a retained zero weight gives a zero row of V). '
+         '(4) truncate(orth=True, use_stab=False), BOTH modes, only the QR / RQ / SVD / eigh / argsort contracts assumed '
+         '(C02_truncate_error; C02_truncate_error_svd is the SVD-mode instance, C02_truncate_error_cond the generic form over '
+         'any factorisation meeting the contract): the call succeeds on every valid tensor with d >= 2, same shape, every rank '
+         '<= max(1, int r) and <= the input rank, and |Y - W|_F^2 <= e^2 |Y|_F^2 when no returned rank reaches the cap. '
+         '(5) add_many (C02_add_many_step, _final, _loop_step): every rounding step of add_many is such a truncate call and '
+         'obeys the same bound; the result is the final rounding step applied to the running sum, which the loop changes only '
+         'by add and by rounding steps. '
+         'NOT proved in Coq, checked numerically by search() on every run: use_stab=True (the scaling bookkeeping is C16, the '
+         'stabilised orthogonalisation is C04); the two Eckart-Young clauses (error <= root-sum-square of the best unfolding '
+         'errors at the returned ranks; no rank above the smallest one meeting the per-unfolding budget for e above the '
+         'rounding floor) which need singular-value interlacing. "The cap does not bind" is formalised as "every returned '
+         'rank < int(r)". The theorems are about exact real arithmetic: in binary64 the eigen-decomposition mode loses singular '
+         'values below about sqrt(eps)*|unfolding| (known finding C02/eigh-mode-sqrt-eps-floor, reported on every run by a '
+         'fixed regression input; search() uses the same tight floor 1e-12*|Y| in both modes and tags only eigh-mode excesses '
+         '<= 1e-6*|Y| on inputs where the SVD mode meets the bound).',
+    note='Model tied to /repo on every run: float instance with replayed LAPACK calls (ranks exact, dense tensor 1e-9) for '
+         'matrix_svd, matrix_skeleton (l, r, m, rel), truncate (all four flag combinations, orth on/off) and add_many; '
+         'exact rank-rule stream (Z instance vs the implementation on integer diagonal matrices incl. exact ties); threshold '
+         'stream (e 1e-9 above / below every rank change); contracts of every recorded qr / eigh / svd / argsort call validated. '
+         'Theorems are about exact real arithmetic; IEEE rounding is not modelled.',
+    technique='Coq proof (Pythagoras over the sweep by induction on the chain length; Frobenius algebra over any commutative '
+              'ring; rank rule by list induction) + float model/implementation correspondence with replayed oracles + dense '
+              'SVD reference search')
 TRUSTED = [
     'Coq 8.16.1 kernel; vm_compute + PrimFloat primitives only for case evaluation (never under a theorem)',
     'Reals axioms of the standard library (theorems are stated at R)',
     'hand-written model Model/Svd.v (rank_select, matrix_svd, matrix_skeleton, trunc_sweep, truncate), '
     'Model/Transformation.v (orthogonalize, core_stab), Model/ActMany.v (add_many), tied to /repo by the float '
     'correspondence with replayed LAPACK calls (ranks exact, dense tensor 1e-9) and the exact rank-rule stream',
-    'oracle contracts (Section hypotheses): reduced QR (A = QR, QtQ = I), symmetric eigh (C U = U diag(w), U orthogonal), '
+    'oracle contracts (hypotheses of the theorems): reduced QR (A = QR, QtQ = I), symmetric eigh (C U = U diag(w), UtU = UUt = I), '
     'thin SVD (A = U diag(s) Vt, orthonormal factors, s >= 0 sorted), argsort (a permutation sorting w); validated on '
     'every recorded call of the real routine',
     'IEEE rounding is not modelled: theorems are about exact real arithmetic',
@@ -765,23 +803,40 @@ def _check_truncate(tn, Y, e, r, use_stab, is_eigh, opt=True):
         fails.append(('rank <= input rank', rk, rin))
     Tz = _full(Z)
     err = float(np.linalg.norm(T - Tz))
-    # rounding floor: eigh mode sees squared singular values with absolute error ~ eps * |A|^2
-    floor2 = (1e-13 if is_eigh else 1e-24) * nrm * nrm
+    # the same tight floor (rounding of the dense reference itself) in both modes
+    floor2 = 1e-24 * nrm * nrm
+    # floor of the rank clause (d2) only: the property text restricts it to e above the rounding floor
+    floor2_rank = (1e-13 if is_eigh else 1e-24) * nrm * nrm
+
+    def tag(excess):
+        """the known sqrt(eps) loss of the eigen-decomposition mode: small excess, eigh mode only, SVD mode meets the bound"""
+        if not (is_eigh and excess <= 1e-6 * nrm):
+            return None
+        try:
+            with np.errstate(all='ignore'):
+                Zs_ = tn.truncate([G.copy() for G in Y], e, r, True, use_stab, False)
+            es = float(np.linalg.norm(T - _full(Zs_)))
+        except Exception:  # noqa
+            return None
+        if _ranks(Zs_) == _ranks(tn.truncate([G.copy() for G in Y], e, 1.E+12, True, use_stab, False)) and \
+                not es <= math.sqrt((e * nrm) ** 2 * (1 + 1e-6) + floor2):
+            return None
+        return KNOWN_EIGH
     # (b) error bound when the cap does not bind
     if rk == rk0:
         bound = math.sqrt((e * nrm) ** 2 * (1 + 1e-6) + floor2)
         if not err <= bound:
-            fails.append(('error <= e*norm', err, bound))
+            fails.append(('error <= e*norm', err, bound, tag(err - e * nrm)))
     if opt and T.size <= 4096 and nrm > 0:
         sv = [None] + [_unfold_svals(T, k) for k in range(1, d)]
         # (d1) error <= root-sum-square of the best errors of the unfoldings at the returned ranks
         best2 = sum(float(np.sum(sv[k][rk[k]:] ** 2)) for k in range(1, d))
         b = math.sqrt(best2 * (1 + 1e-6) + floor2 * d)
         if not err <= b:
-            fails.append(('error <= rss of best unfolding errors', err, b))
+            fails.append(('error <= rss of best unfolding errors', err, b, tag(err - math.sqrt(best2))))
         # (d2) no rank above the smallest one meeting the per-unfolding budget (e above the rounding floor)
         if e >= (1e-5 if is_eigh else 1e-10) and rk == rk0:
-            bud2 = (e * nrm) ** 2 / (d - 1) * (1 - 1e-6) - floor2
+            bud2 = (e * nrm) ** 2 / (d - 1) * (1 - 1e-6) - floor2_rank
             for k in range(1, d):
                 tails = np.concatenate([np.cumsum((sv[k] ** 2)[::-1])[::-1], [0.0]])
                 rho = max(1, int(np.argmax(tails <= bud2))) if np.any(tails <= bud2) else len(sv[k])
@@ -820,10 +875,16 @@ def _check_add_many(tn, Ys, e, r, freq):
         err = float(np.linalg.norm(_full(Yin) - _full(Yout)))
         cap_free = (not last) or r >= 1e11 or max(_ranks(Yout)) < max(1, int(r))
         if cap_free:
-            bound = math.sqrt((e * nin) ** 2 * (1 + 1e-6) + 1e-13 * nin * nin)
+            bound = math.sqrt((e * nin) ** 2 * (1 + 1e-6) + 1e-24 * nin * nin)
             if not err <= bound:
-                fails.append(('error of rounding step <= e*norm', [j, err], bound))
-            budget += bound
+                # add_many always rounds in the eigen-decomposition mode: same known sqrt(eps) loss, same conditions
+                tg = None
+                if err - e * nin <= 1e-6 * nin:
+                    Zs_ = o_tr([G.copy() for G in Yin], e, r_, True, False, False)
+                    if float(np.linalg.norm(_full(Yin) - _full(Zs_))) <= bound:
+                        tg = KNOWN_EIGH
+                fails.append(('error of rounding step <= e*norm', [j, err], bound, tg))
+            budget += max(bound, err if err - e * nin <= 1e-6 * nin else bound)
         else:
             budget = float('inf')
         if any(q > max(1, int(r_)) for q in _ranks(Yout)):
@@ -865,7 +926,18 @@ def _check_matrix(tn, A, e, r, which):
 
 
 def _fail(what, kind, **inp):
-    return dict(what=f'C02 {kind}: {what[0]}', input=dict(kind=kind, **inp), got=what[1], expected=what[2])
+    f = dict(what=f'C02 {kind}: {what[0]}', input=dict(kind=kind, **inp), got=what[1], expected=what[2])
+    if len(what) > 3 and what[3]:
+        f['finding_key'] = what[3]
+    return f
+
+
+# fixed regression case of the known finding C02/eigh-mode-sqrt-eps-floor: d = 2, second core Q diag(1, 2e-9) P, e = 1e-9
+REGRESSION_EIGH = dict(
+    kind='truncate',
+    Y=[[[1, 2, 2], ['0x1.0000000000000p+0', '0x0.0p+0', '0x0.0p+0', '0x1.0000000000000p+0']],
+       [[2, 2, 1], ['0x1.bbbcacce5a426p-2', '-0x1.b3eb15127489dp-1', '0x1.128723cb1e507p-3', '-0x1.0db0cee7e87e3p-2']]],
+    e=float(1e-9).hex(), r=1.E+12, use_stab=False, is_eigh=True)
 
 
 def _run_payload(tn, inp):
@@ -885,7 +957,8 @@ def search(R, ctx, deep, hints):
     tn = C.import_teneva()
     rng = C.Rng(ctx['seed'] + 77)
     nprng = np.random.default_rng(ctx['seed'] + 78)
-    fails = []
+    fails = []      # untagged: real violations
+    known = []      # tagged with the key of a known finding
     nev = 0
 
     def run(inp):
@@ -893,9 +966,11 @@ def search(R, ctx, deep, hints):
         nev += 1
         fs = _run_payload(tn, inp)
         for f in fs[:2]:
-            fails.append(_fail(f, inp['kind'], **{k: v for k, v in inp.items() if k != 'kind'}))
+            ff = _fail(f, inp['kind'], **{k: v for k, v in inp.items() if k != 'kind'})
+            (known if 'finding_key' in ff else fails).append(ff)
         return fs
 
+    run(REGRESSION_EIGH)
     def t_inp(Y, e, r, use_stab, is_eigh):
         return dict(kind='truncate', Y=_jtt(Y), e=float(e).hex(), r=r, use_stab=use_stab, is_eigh=is_eigh)
     # hints from the correspondence first
@@ -960,10 +1035,17 @@ def search(R, ctx, deep, hints):
             Ys.append([nprng.normal(size=(r_[k], n[k], r_[k + 1])) for k in range(d)])
         run(dict(kind='add_many', Ys=[_jtt(Y) for Y in Ys], e=float(10.0 ** (-rng.uniform(0.3, 4))).hex(),
                  r=rng.choice([1.E+12, 1, 2, 3]), freq=rng.choice([1, 2, 3, 15])))
+    # the driver reports a broken proof / correspondence as a violation only when search() returns nothing:
+    # known-finding hits must not mask it
+    broken = (R.build_ok is False) or bool(R.forbidden) or any(not o['ok'] for o in R.obligations) or \
+        any(c.get('mismatches') for c in R.corr)
     R.search.append(dict(name='truncate / matrix factorisations / add_many on the implementation vs dense SVD reference '
                               '(shape, caps, error <= e*norm when the cap does not bind, Eckart-Young clauses, per-step bound)',
-                         evaluations=nev, truncate_calls_checked=n_tr, failures=len(fails), deep=deep))
-    return fails
+                         evaluations=nev, truncate_calls_checked=n_tr, failures=len(fails),
+                         known_finding_hits=len(known), deep=deep))
+    if fails:
+        return fails + known[:3]
+    return [] if broken else known[:3]
 
 
 def replay(data):
